@@ -2,6 +2,7 @@
 
 Decides the release *paths* (single release path, ordering inside it, no input after disconnect, registration exactly once,
 response-timer ownership).  Descriptor counts in /proc are a runtime observation and are not decided."""
+import re
 from .. import cfg, lib, facts
 from ..facts import AnalysisBroken, strip_tmpl
 
@@ -146,7 +147,8 @@ def run(ck):
     ck.rule("C08-R8", "I ownership (type-level) + D who-may-call",
             "the descriptor of a queued file write is owned by its BufferHolder: the file constructor creates a shared owner whose deleter "
             "closes it, detach() hands the same owner to the holder it returns, and nothing else in the transport closes a buffer's "
-            "descriptor by hand — so every way an entry leaves the queue (sent, failed, peer gone, removePeer, dropped) closes it once", 4)
+            "descriptor by hand — so every way an entry leaves the queue (sent, failed, peer gone, removePeer, dropped) closes it once; a "
+            "FileBuffer (which opens the descriptor) exists only as the argument of the asyncWrite that wraps it", 5)
     bh = prog.cls(T + "BufferHolder")
     owner = [x for x in bh["fields"] if "shared_ptr" in x["type"]]
     dtor_idiom = [f2 for f2 in prog.funcs.values() if f2.d.get("dtor") and f2.cls in (T + "BufferHolder", T + "WriteEntry", "Pistache::FileBuffer")
@@ -183,6 +185,70 @@ def run(ck):
                 manual.append(e)
     ck.ob("C08-R8", "transport/no-manual-close-of-buffer-fd", not manual, manual[0].loc if manual else "%s:%s" % (bh["file"], bh["line"]), manual[0].func if manual else "",
           "no close(buffer.fd()) by hand" if not manual else "close(buffer.fd()) at %s closes a descriptor its holder also owns (double close) or is the only path that closes it (leak elsewhere)" % manual[0].loc)
+
+    # a FileBuffer opens a descriptor and has no destructor: it gets an owner only when asyncWrite wraps it in a BufferHolder, so it must
+    # not exist before that (a named FileBuffer that waits for a continuation leaks whenever the continuation never runs)
+    nfb = 0
+    for f2 in prog.library_funcs():
+        if f2.cls == "Pistache::FileBuffer":
+            continue
+        for e in f2.events(("decl", "construct")):
+            if e.get("copymove"):
+                continue
+            if e["k"] == "decl" and strip_tmpl(e.get("ctor") or "") == "Pistache::FileBuffer" and [a for a in (e.get("cargs") or []) if not a.get("dflt")] \
+                    and "FileBuffer" not in ((e["cargs"][0].get("ty") or "")):
+                nfb += 1
+                # fine when every way on from the declaration hands it to asyncWrite in this very function
+                var_ = e.get("var")
+                takes = lambda c: c["k"] == "call" and (c.get("callee") or "").endswith("Transport::asyncWrite") and any(a.get("v") == var_ for a in c.get("args", []))
+                loose = [x for x in cfg.exits_without(f2, takes, start_block=e.block, start_idx=e.idx + 1) if x.kind != "throw"]
+                ck.ob("C08-R8", "FileBuffer@%s/handed-over-at-once" % prog.owner(f2).base.replace("Pistache::", ""), not loose, e.loc, f2,
+                      "handed to asyncWrite on every path from its declaration" if not loose else
+                      "`%s` opens the file long before a BufferHolder owns the descriptor: on every path on which the write that would take "
+                      "it over is never issued (early return, rejected header write, peer gone) the descriptor stays open for ever" % e.get("var"))
+            elif e["k"] == "construct" and strip_tmpl(e.get("cls") or "") == "Pistache::FileBuffer" and e.get("args") and \
+                    "FileBuffer" not in ((e["args"][0].get("ty") or "")):
+                t_ = re.sub(r"\s+", "", e.get("t") or "")
+                taken = [c for c in f2.calls(lambda c: (c.get("callee") or "").endswith("Transport::asyncWrite"))
+                         if any(t_ and t_ in re.sub(r"\s+", "", a.get("t") or "") for a in c.get("args", []))]
+                if any(d_.get("var") and t_ and re.sub(r"\s+", "", (d_.get("init") or {}).get("t") or "") == t_ for d_ in f2.events("decl")):
+                    continue    # the initialiser of a named FileBuffer: reported above
+                nfb += 1
+                ck.ob("C08-R8", "FileBuffer@%s/handed-over-at-once" % prog.owner(f2).base.replace("Pistache::", ""), bool(taken), e.loc, f2,
+                      "a temporary in the argument list of Transport::asyncWrite")
+    ck.require(nfb >= 1, "no FileBuffer construction found in the library")
+
+    # ---------------- R11: per-descriptor state does not outlive the connection ----------------
+    ck.rule("C08-R11", "I container discipline (type-level) + mod-set",
+            "every associative member of Tcp::Transport or of a class derived from it whose key is a descriptor number is erased on the "
+            "release path (removePeer and what it calls): the kernel hands the number to the next connection at once, which would inherit "
+            "whatever is still filed under it.  Stated exception: `timers` (keyed by timerfd numbers, which the timer owner closes)", 2)
+    FD_KEYED_EXCEPT = {T + "timers": "keyed by the numbers of timerfds, not of connections: entries are erased when the timer fires or is disarmed"}
+    tcls = [c_ for c_ in prog.class_list if not c_.get("dependent") and (c_["name"] == T[:-2] or any(b_.get("name") == T[:-2] for b_ in c_.get("bases") or []))]
+    ck.require(tcls, "class Tcp::Transport not found")
+    rel_reg = lib.region(prog, g, within=lambda h_: h_.cls in {c_["name"] for c_ in tcls})
+    erased = set()
+    for h_ in rel_reg:
+        for e in h_.calls(lambda e: e.base_callee().rsplit("::", 1)[-1] in ("erase", "extract") and lib.is_assoc_call(e)):
+            fq = strip_tmpl((e.get("recv") or {}).get("f") or "")
+            if fq:
+                erased.add(fq)
+    nk = 0
+    for c_ in tcls:
+        for x in c_["fields"]:
+            ct = (x.get("ctype") or x["type"]).replace(" ", "")
+            m_ = re.match(r"^std::(unordered_)?(multi)?(map|set)<(int|Pistache::Fd|Fd)[,>]", ct)
+            if not m_:
+                continue
+            fq = c_["name"] + "::" + x["name"]
+            if fq in FD_KEYED_EXCEPT:
+                continue
+            nk += 1
+            ck.ob("C08-R11", "erased-on-release:%s" % fq.replace("Pistache::", ""), fq in erased, "%s:%s" % (c_["file"], x.get("line") or 0), "",
+                  "erased in removePeer" if fq in erased else
+                  "%s is filed under descriptor numbers but nothing on the release path erases it: an entry left by a connection that went away "
+                  "is found again by the next connection that is given the same number" % x["name"], nontrivial=False)
+    ck.require(nk >= 2, "descriptor-keyed members of the transport classes: %d" % nk)
 
     # ---------------- R9: per-connection write state only for live peers ----------------
     ck.rule("C08-R9", "B guard dominates sink",
